@@ -278,7 +278,8 @@ fn judge(case: &Case, o: &Outcome, obs: &Observed, classes: &mut Vec<String>) ->
             // (3) marks
             if let Some(a) = g.att {
                 let between: i32 = (a.base + 1..=i).map(|k| hm(k) + o.g[k].xadv).sum();
-                if rtl && between != 0 {
+                let between_unknown = (a.base + 1..i).any(|k| nj[k]);
+                if rtl && (between != 0 || between_unknown) {
                     classes.push("rtl:mark-with-advance-between:not-judged".into());
                     let ex = (a.bx - a.mx + g.dx, a.by - a.my + g.dy);
                     let got = (org[i].0 - org[a.base].0, org[i].1 - org[a.base].1);
@@ -337,7 +338,7 @@ fn judge(case: &Case, o: &Outcome, obs: &Observed, classes: &mut Vec<String>) ->
                 let l = org[i].0 + c.exit.0;
                 let r = org[c.to].0 + c.entry.0;
                 let between: i32 = (i + 1..c.to).map(|k| hm(k) + o.g[k].xadv).sum();
-                if between != 0 {
+                if between != 0 || (i + 1..c.to).any(|k| nj[k]) {
                     // skipped glyphs with an advance between the two: where they go is not defined
                     classes.push("cursive-line:advance-between:not-judged".into());
                 } else if l != r {
